@@ -384,3 +384,15 @@ fn load_plugins(config: &Config, state: Arc<AppState>) -> Result<usize, ()> {
 
     Ok(manager.plugin_count())
 }
+
+/// Verification hook: the connection condition `main` installs.
+#[cfg(humphrey_verif)]
+pub fn verif_verify_connection(stream: &mut TcpStream, state: Arc<AppState>) -> bool {
+    verify_connection(stream, state)
+}
+
+/// Verification hook: the sub-app `main` builds for a host (0 = default host, n = hosts[n - 1]).
+#[cfg(humphrey_verif)]
+pub fn verif_init_app_routes(host: &HostConfig, host_index: usize) -> SubApp<AppState> {
+    init_app_routes(host, host_index)
+}
